@@ -2,7 +2,7 @@
     The model decoders are total Gallina functions (a value or None, for every byte list); that
     the REAL decoders never panic is what the correspondence runs supply (PARTIAL for that
     clause). Round trips and the frame-stream theorem are proved for all well-formed values. *)
-From ID Require Import Model.Codecs Proofs.PostcardFacts Proofs.CodecFacts Proofs.StreamFacts.
+From ID Require Import Model.Codecs Proofs.PostcardFacts Proofs.CodecFacts Proofs.StreamFacts Proofs.KeyTextFacts.
 From ID Require Import Base.Bytes Model.Entry Model.Bounds Model.Codecs Proofs.FsPutFacts Proofs.IdFacts.
 
 Theorem C09_varint_roundtrip : forall v, v < 2 ^ 64 -> roundtrips enc_varint dec_varint_u64 v.
@@ -99,8 +99,19 @@ Theorem C09_decoded_entries_well_formed : forall b w r, wf_bytes b -> dec_wentry
   wf_entry (we_entry w) /\ wf_bytes r.
 Proof. exact dec_wentry_wf. Qed.
 
+(** the text form of author and namespace keys: the 64 hex digits of a 32-byte key parse back to exactly
+    its bytes, and only a text of exactly 64 characters is a key (a cut, empty or over-long text is an
+    error) *)
+Theorem C09_key_text_roundtrip : forall b, length b = 32%nat -> Forall (fun x => (x < 256)%N) b ->
+  key_of_text (hex_encode b) = Some b.
+Proof. exact key_text_roundtrip. Qed.
+Theorem C09_key_text_length : forall t b, key_of_text t = Some b -> length t = 64%nat /\ length b = 32%nat.
+Proof. exact key_text_length. Qed.
+
 Print Assumptions C09_byte_order_is_numeric_order.
 Print Assumptions C09_value_determines_bytes.
 Print Assumptions C09_32_bytes_within_bound.
 Print Assumptions C09_decoded_entries_well_formed.
 Print Assumptions C09_truncated_stream_rest.
+Print Assumptions C09_key_text_roundtrip.
+Print Assumptions C09_key_text_length.
